@@ -107,9 +107,21 @@ RECURSIVE SetToSeqS(_)
 SetToSeqS(S) == IF S = {} THEN <<>> ELSE LET x == CHOOSE y \in S : TRUE IN <<x>> \o SetToSeqS(S \ {x})
 
 AllTags == <<"FramesAtomic", "CompletedOnceAfterPending", "NothingForUnannounced", "HasNextFalseExactlyLast",
-             "Terminates", "Applies", "Reconstructs", "IfFalseEqual">>
+             "Terminates", "Applies", "Reconstructs", "IfFalseEqual", "NoWriteAfterDisconnect", "ReleasesOnDisconnect">>
 
-EndVerdict(e) ==
+\* client disconnect (the Flush of some frame failed, the request context was cancelled): of the delivered prefix only
+\* the safety part of the protocol can be demanded; the resolver has to come back without being fed any further subgraph
+\* response, must not call the writer again once a writer call failed, must leave no goroutine behind, and closes the
+\* stream at most once
+CutVerdict(e) ==
+  s.bad \cup extra
+  \cup Tag(~e.returned \/ ~e.prompt, "Terminates")
+  \cup Tag(e.complete > 1, "Terminates")
+  \cup Tag(e.overlap, "FramesAtomic")
+  \cup Tag(e.afterFail > 0, "NoWriteAfterDisconnect")
+  \cup Tag(e.leaked > 0, "ReleasesOnDisconnect")
+
+FullVerdict(e) ==
   StreamEnd(s) \cup extra
   \cup Tag(~e.returned, "Terminates")
   \* the stream is closed exactly once, after the last frame (a plain response needs no Complete)
@@ -121,6 +133,8 @@ EndVerdict(e) ==
   \cup Tag(~e.faulted /\ IsBroken(doc), "Applies")
   \cup Tag(e.cmp /\ ~IsBroken(doc) /\ doc # e.expected, "Reconstructs")
   \cup Tag(e.cmp /\ e.ifFalse # e.expected, "IfFalseEqual")
+
+EndVerdict(e) == IF e.cut THEN CutVerdict(e) ELSE FullVerdict(e)
 
 T_End ==
   /\ IsEvent("end")
